@@ -18,7 +18,7 @@
 From Coq Require Import List ZArith Bool Lia.
 From LMBase Require Import Res.
 From LMPyIdx Require Import GenSlots.
-From LMFootprint Require Import FpModel FpProofs FpHistory FpHistoryProofs FpCap FpCapProofs FpInit FpPy FpPyProofs.
+From LMFootprint Require Import FpModel FpProofs FpNeon FpHistory FpHistoryProofs FpCap FpCapProofs FpInit FpPy FpPyProofs.
 Import ListNotations.
 Open Scope Z_scope.
 
@@ -163,14 +163,18 @@ Theorem fp_init_resize : forall es C st rows0 rows1 r c,
   written (fp_resize es C st rows0 rows1) B_DST (r * st * es + c).
 Proof. exact resize_cells_written. Qed.
 
-(* `encode_raw` (`Vec::with_capacity` + `set_len`): the AVX2 / SSE2 / NEON encoders write every symbol *)
+(* `encode_raw` (`Vec::with_capacity` + `set_len`): the generic, AVX2, SSE2 and NEON encoders write every symbol *)
 Theorem fp_init_encode_raw : forall L j, 0 <= j < L ->
-  written (fp_encode_into_avx2 L) B_DST j /\ written (fp_encode_into_sse2 L) B_DST j.
+  written (fp_encode_into_avx2 L) B_DST j /\ written (fp_encode_into_sse2 L) B_DST j /\
+  written (fp_encode_generic L) B_DST j /\ written (fp_encode_into_neon L) B_DST j.
 Proof.
-  intros L j Hj. split.
+  intros L j Hj. split; [|split; [|split]].
   - apply (encode_cells_written 32 false L j); lia.
   - unfold fp_encode_into_sse2. destruct (encode_cells_written 16 true L j ltac:(lia) Hj) as [a [Ha Hc]].
     exists a. split; [apply in_or_app; left; exact Ha | exact Hc].
+  - exists (wr B_DST j 1 1). split; [|apply covers_wr; lia].
+    unfold fp_encode_generic. apply in_flat_map. exists j. split; [apply In_zrange; lia|]. right. left. reflexivity.
+  - apply (encode_cells_written 64 true L j); lia.
 Qed.
 
 (* striping (generic code and stripe_avx2, whose `stripe()` starts from `with_capacity`): every cell of every row *)
